@@ -499,3 +499,265 @@ Section Sim.
     eapply distribute_good; eauto.
   Qed.
 End Sim.
+
+(* ================================================================ D. drawing: the lines written and the lines of the tag-free table *)
+(* the lines of the tag-free table before right-stripping *)
+Definition border_lines (ind : Z) (lens : list Z) (lc l c r : str) : list str :=
+  let full := blanks ind ++ l ++ border_body lc c r lens in
+  match t_rstrip full with [] => [] | _ => [full] end.
+Definition row_lines (b : bstyle) (pre suf pad : str) (ind : Z) (row : list str) (cols al : list Z) : list str :=
+  let cells := map (split_on 10%N) row in
+  map (fun i => blanks ind ++ b_vl b ++ row_line pre suf pad (b_vc b) (b_vr b) i cells cols al)
+      (seq 0 (fold_right Nat.max O (map (@length str) cells))).
+Definition table_lines (s : tstyle) (header : list str) (ind : Z) (st : fitst) (al : list Z) : list str :=
+  let b := t_border s in
+  let bl := map (fun l => (l + excess s)%Z) (f_cols st) in
+  let body := match header with [] => f_rows st | _ => tl (f_rows st) end in
+  border_lines ind bl (b_ht b) (b_tl b) (b_ct b) (b_tr b) ++
+  (match header with
+   | [] => []
+   | _ => row_lines b (t_hpre s) (t_hsuf s) (t_pad s) ind (hd [] (f_rows st)) (f_cols st) al ++
+          border_lines ind bl (b_hc b) (b_cl b) (b_cc b) (b_cr b)
+   end) ++
+  flat_map (fun row => row_lines b (t_cpre s) (t_csuf s) (t_pad s) ind row (f_cols st) al) body ++
+  border_lines ind bl (b_hb b) (b_bl b) (b_cb b) (b_br b).
+Definition strip_lines (ls : list str) : str := flat_map (fun l => t_rstrip l ++ [10%N]) ls.
+Lemma strip_lines_app a b : strip_lines (a ++ b) = strip_lines a ++ strip_lines b.
+Proof. apply flat_map_app. Qed.
+Lemma draw_border_lines ind lens lc l c r : draw_border ind lens lc l c r = strip_lines (border_lines ind lens lc l c r).
+Proof.
+  unfold draw_border, border_lines. destruct (t_rstrip (blanks ind ++ l ++ border_body lc c r lens)) eqn:E; [reflexivity|].
+  unfold strip_lines. cbn [flat_map]. rewrite E, app_nil_r. reflexivity.
+Qed.
+Lemma draw_row_lines b pre suf pad ind row cols al : draw_row b pre suf pad ind row cols al = strip_lines (row_lines b pre suf pad ind row cols al).
+Proof.
+  unfold draw_row, row_lines, strip_lines. generalize (seq 0 (fold_right Nat.max O (map (@length str) (map (split_on 10%N) row)))). intros l.
+  induction l as [|i l IH]; [reflexivity|]. cbn [flat_map map]. rewrite IH. reflexivity.
+Qed.
+Lemma draw_table_lines s header ind st al : draw_table s header ind st al = strip_lines (table_lines s header ind st al).
+Proof.
+  unfold draw_table, table_lines. rewrite !strip_lines_app. rewrite 3?draw_border_lines. f_equal. f_equal.
+  - destruct header; [reflexivity|]. now rewrite strip_lines_app, draw_row_lines, ?draw_border_lines.
+  - rewrite ?draw_border_lines. f_equal. generalize (match header with [] => f_rows st | _ :: _ => tl (f_rows st) end). intros body.
+    induction body as [|r body IH]; [reflexivity|]. cbn [flat_map]. rewrite strip_lines_app, draw_row_lines, IH. reflexivity.
+Qed.
+
+(* every line of the tag-free table has the table's width *)
+Lemma border_lines_width s cols ind lc l c r : 0 <= ind -> cols <> [] -> Forall (fun x => 0 <= x) cols ->
+  wf_border (b_vl (t_border s)) (b_vc (t_border s)) (b_vr (t_border s)) lc l c r ->
+  Forall (fun x => zlen x = full_width s cols ind) (border_lines ind (map (fun x => x + excess s) cols) lc l c r).
+Proof.
+  intros Hind Hne Hnn [[(H1 & H2 & H3 & H4)|(-> & -> & -> & ->)]]; unfold border_lines.
+  - destruct (t_rstrip _); [constructor|]. constructor; [|constructor].
+    unfold full_width. rewrite !zlen_app, zlen_blanks, border_body_len.
+    + rewrite map_length, H1, H2, H3, H4. lia.
+    + destruct cols; cbn; congruence.
+    + assert (0 <= excess s) by (unfold excess; pose proof (zlen_nonneg (t_hpre s ++ t_hsuf s)); lia).
+      clear -Hnn H. induction Hnn; cbn [map]; constructor; auto; lia.
+  - assert (E : border_body [] [] [] (map (fun x => x + excess s) cols) = []).
+    { clear. induction cols as [|x cols IH]; [reflexivity|]. cbn [map border_body]. destruct (map (fun x0 => x0 + excess s) cols) eqn:M.
+      - unfold rep. clear. induction (Z.to_nat (x + excess s)); cbn; auto.
+      - rewrite IH. unfold rep. clear. induction (Z.to_nat (x + excess s)); cbn; auto. }
+    rewrite E, !app_nil_r, rstrip_blanks. constructor.
+Qed.
+Lemma row_lines_width s pre suf ind row cols al : wf_style s -> 0 <= ind -> row <> [] ->
+  zlen pre + zlen suf = excess s ->
+  Forall2 (fun cell c => cell_ok c cell) row cols -> Forall (fun x => 0 <= x) cols -> length al = length cols ->
+  Forall (fun x => zlen x = full_width s cols ind) (row_lines (t_border s) pre suf (t_pad s) ind row cols al).
+Proof.
+  intros (Hp & _) Hind Hne Hex Hrow Hnn Hal. unfold row_lines. set (cells := map (split_on 10%N) row).
+  apply Forall_forall. intros x Hx. apply in_map_iff in Hx as (i & <- & _).
+  rewrite !zlen_app, zlen_blanks, (row_line_len pre suf (t_pad s) _ _ i Hp cells cols al).
+  + unfold full_width. replace (map (fun w => zlen pre + w + zlen suf) cols) with (map (fun c => c + excess s) cols); [lia|].
+    apply map_ext. intros; lia.
+  + unfold cells. clear -Hrow Hnn. induction Hrow as [|c w r cs Hcw _ IH]; cbn [map]; constructor.
+    * apply Forall_cons_iff in Hnn as [Hw _]. apply nth_split_le; assumption.
+    * apply IH. apply Forall_cons_iff in Hnn as [_ H]. exact H.
+  + exact Hal.
+  + unfold cells. destruct row; [congruence|discriminate].
+Qed.
+
+Section Draw.
+  Variables (on : bool) (f : formatter).
+  Hypothesis Hk : f_kind f <> FNull.
+  Let dec := decorated on f.
+
+  (* what is written for a line X and the line PL of the tag-free table: X without its SGR sequences is a text v and
+     the line break, PL is v followed by white space; an undecorated output writes v itself *)
+  Definition line_item (X PL : str) : Prop :=
+    exists v sp, strips X (v ++ [10%N]) /\ (dec = false -> X = v ++ [10%N]) /\ PL = v ++ sp /\ Forall (fun c => is_space c = true) sp.
+  (* a step of the drawing leaves the formatter as it was and writes the lines pls *)
+  Definition step_ok (s : formatter -> res (formatter * str)) (pls : list str) : Prop :=
+    exists Xs, s f = Ok (f, concat Xs) /\ Forall2 line_item Xs pls.
+
+  Lemma run_steps_same steps outs : Forall2 (fun s o => s f = Ok (f, o)) steps outs -> run_steps steps f = Ok (f, concat outs).
+  Proof. induction 1 as [|s o steps outs H _ IH]; [reflexivity|]. cbn [run_steps concat]. rewrite H. cbn [bind fst snd]. rewrite IH. reflexivity. Qed.
+  Lemma steps_cons s steps r1 r2 : s f = Ok (f, r1) -> run_steps steps f = Ok (f, r2) -> run_steps (s :: steps) f = Ok (f, r1 ++ r2).
+  Proof. intros E1 E2. cbn [run_steps]. rewrite E1. cbn [bind fst snd]. rewrite E2. reflexivity. Qed.
+  Lemma run_steps_ok steps plss : Forall2 step_ok steps plss -> step_ok (run_steps steps) (concat plss).
+  Proof.
+    induction 1 as [|s pls steps plss (Xs & E & F) _ (Ys & E2 & F2)]; [exists []; split; [reflexivity|constructor]|].
+    exists (Xs ++ Ys). cbn [run_steps concat]. rewrite E. cbn [bind fst snd]. rewrite E2. cbn [bind fst snd].
+    split; [now rewrite concat_app|]. apply Forall2_app; assumption.
+  Qed.
+
+  Lemma inert_rep pad t : inert pad -> inert (rep pad t).
+  Proof. intros H. unfold rep. induction (Z.to_nat t); cbn [repeat concat]; [constructor|apply inert_app; assumption]. Qed.
+  Lemma inert_blanks k : inert (blanks k).
+  Proof. unfold blanks. induction (Z.to_nat k); cbn [repeat]; constructor; auto. repeat split; discriminate. Qed.
+  Lemma vrel_fill pad a t p pv : inert pad -> vrel f p pv -> vrel f (fill pad a t p) (fill pad a t pv).
+  Proof.
+    intros Hp H. unfold fill. destruct (a =? 0); [|destruct (a =? 1)];
+      repeat (apply vrel_app); try exact H; apply vrel_inert, inert_rep, Hp.
+  Qed.
+  (* one cell of one line *)
+  Lemma cell_f_ok pre suf pad a w p pv sep : inert pre -> inert suf -> inert pad -> inert sep -> vrel f p pv ->
+    exists raw, cell_f pre suf pad a w p sep f = Ok (f, raw) /\
+                vrel f raw (match pad_cell pad a w pv with Some x => pre ++ x ++ suf ++ sep | None => [] end).
+  Proof.
+    intros H1 H2 H3 H4 Hp. unfold cell_f, pad_cell. rewrite (vrel_remove f p pv Hk Hp). cbn [bind fst snd].
+    eexists. split; [reflexivity|]. destruct (w - zlen pv <? 0); [apply vrel_nil|].
+    apply vrel_app; [apply vrel_inert, H1|]. apply vrel_app; [apply vrel_fill; assumption|].
+    apply vrel_app; apply vrel_inert; assumption.
+  Qed.
+  Definition cells_rel (cells cells' : list (list str)) : Prop :=
+    Forall2 (fun c c' => forall i, vrel f (nth i c []) (nth i c' [])) cells cells'.
+  Lemma row_steps_ok pre suf pad vc vr i : inert pre -> inert suf -> inert pad -> inert vc -> inert vr ->
+    forall cells cells' cols al, cells_rel cells cells' ->
+    exists raw, run_steps (row_steps pre suf pad vc vr i cells cols al) f = Ok (f, raw) /\
+                vrel f raw (row_line pre suf pad vc vr i cells' cols al).
+  Proof.
+    intros H1 H2 H3 H4 H5 cells cells' cols al H. revert cols al.
+    induction H as [|c c' cells cells' Hc Hrest IH]; intros cols al; cbn [row_steps row_line].
+    - exists []. split; [reflexivity|apply vrel_nil].
+    - destruct cols as [|w cols]; [exists []; split; [reflexivity|apply vrel_nil]|].
+      destruct al as [|a al]; [exists []; split; [reflexivity|apply vrel_nil]|].
+      destruct (IH cols al) as (r2 & E2 & V2). clear IH. cbn [row_steps row_line].
+      assert (Hsep : forall sep, inert sep -> exists r1, cell_f pre suf pad a w (nth i c []) sep f = Ok (f, r1) /\
+                       vrel f r1 (match pad_cell pad a w (nth i c' []) with Some x => pre ++ x ++ suf ++ sep | None => [] end))
+        by (intros sep Hs; apply cell_f_ok; auto).
+      destruct Hrest; cbv iota.
+      + destruct (Hsep vr H5) as (r1 & E1 & V1). exists (r1 ++ r2). split; [apply steps_cons; [exact E1|exact E2]|]. apply vrel_app; [exact V1|exact V2].
+      + destruct (Hsep vc H4) as (r1 & E1 & V1). exists (r1 ++ r2). split; [apply steps_cons; [exact E1|exact E2]|]. apply vrel_app; [exact V1|exact V2].
+  Qed.
+  (* one line of a row *)
+  Lemma line_f_ok pre suf pad vl vc vr ind cells cells' cols al i :
+    inert pre -> inert suf -> inert pad -> inert vl -> inert vc -> inert vr -> cells_rel cells cells' ->
+    step_ok (line_f on pre suf pad vl vc vr ind cells cols al i) [blanks ind ++ vl ++ row_line pre suf pad vc vr i cells' cols al].
+  Proof.
+    intros H1 H2 H3 H4 H5 H6 HR. unfold step_ok, line_f.
+    destruct (row_steps_ok pre suf pad vc vr i H1 H2 H3 H5 H6 cells cells' cols al HR) as (raw & E & V). rewrite E. cbn [bind fst snd].
+    assert (VL : vrel f (blanks ind ++ vl ++ raw) (blanks ind ++ vl ++ row_line pre suf pad vc vr i cells' cols al)).
+    { apply vrel_app; [apply vrel_inert, inert_blanks|]. apply vrel_app; [apply vrel_inert, H4|exact V]. }
+    destruct (vrel_rstrip_nl f _ _ VL) as (v & sp & VR & Ey & Fs).
+    destruct (out_write_vrel on f _ _ Hk VR) as (X & EX & SX & DX).
+    exists [X]. cbn [concat]. rewrite app_nil_r. split; [exact EX|]. constructor; [|constructor].
+    exists v, sp. auto.
+  Qed.
+  Lemma max_len_rel cells cells' : Forall2 (fun c c' => length c = length c') cells cells' ->
+    fold_right Nat.max O (map (@length str) cells) = fold_right Nat.max O (map (@length str) cells').
+  Proof. induction 1 as [|c c' cells cells' E _ IH]; [reflexivity|]. cbn [map fold_right]. now rewrite E, IH. Qed.
+
+  (* a cell and its visible text, line by line *)
+  Lemma split_no_sep sep c : ~ In sep c -> split_on sep c = [c].
+  Proof.
+    induction c as [|x c IH]; [reflexivity|]. intros H. cbn [split_on]. destruct (N.eqb_spec x sep) as [->|_]; [exfalso; apply H; left; reflexivity|].
+    rewrite IH; [reflexivity|]. intros Hin. apply H. right. exact Hin.
+  Qed.
+  Lemma split_P (P : N -> Prop) sep s : Forall P s -> Forall (Forall P) (split_on sep s).
+  Proof.
+    induction 1 as [|c s Hc Hs IH]; cbn [split_on]; [repeat constructor|]. destruct (N.eqb c sep); [constructor; [constructor|exact IH]|].
+    destruct (split_on sep s) as [|l ls]; [repeat constructor; exact Hc|]. inversion IH; subst. constructor; [constructor; assumption|assumption].
+  Qed.
+  Lemma good_cell_pieces c : good_cell f c -> Forall2 (vrel f) (split_on 10%N c) (split_on 10%N (vis f c)).
+  Proof.
+    intros Hc. pose proof (good_cell_vrel f c Hk Hc) as V. destruct Hc as (G & Hnl & _).
+    destruct (has_lt c) eqn:Hl.
+    - specialize (Hnl eq_refl). rewrite (split_no_sep _ c Hnl), split_no_sep.
+      + constructor; [exact V|constructor].
+      + pose proof (vrel_P (fun x => x <> 10%N) f c (vis f c) V) as HP. intros Hin.
+        assert (HF : Forall (fun x => x <> 10%N) c) by (apply Forall_forall; intros x Hx ->; apply Hnl, Hx).
+        specialize (HP HF). rewrite Forall_forall in HP. exact (HP _ Hin eq_refl).
+    - apply has_lt_false in Hl. rewrite (vis_no_lt f c Hl).
+      assert (HI : inert c).
+      { unfold inert, no_lt in *. rewrite Forall_forall in *. intros x Hx. destruct (G x Hx) as [G1 G2]. split; [exact (Hl x Hx)|split; assumption]. }
+      pose proof (split_P _ 10%N c HI) as HS. induction HS as [|p ps Hp _ IH]; constructor; [apply vrel_inert, Hp|exact IH].
+  Qed.
+  Lemma pieces_nth l l' : Forall2 (vrel f) l l' -> forall i, vrel f (nth i l []) (nth i l' []).
+  Proof. induction 1 as [|p p' l l' H _ IH]; intros [|i]; cbn [nth]; auto; apply vrel_nil. Qed.
+  Lemma row_cells_rel row : Forall (good_cell f) row ->
+    cells_rel (map (split_on 10%N) row) (map (split_on 10%N) (map (vis f) row)) /\
+    Forall2 (fun c c' => length c = length c') (map (split_on 10%N) row) (map (split_on 10%N) (map (vis f) row)).
+  Proof.
+    induction 1 as [|c row Hc _ [IH1 IH2]]; cbn [map]; [split; constructor|]. pose proof (good_cell_pieces c Hc) as HP.
+    split; constructor; auto; [apply pieces_nth, HP|apply (Forall2_length _ _ _ HP)].
+  Qed.
+
+  (* a row *)
+  Lemma draw_row_f_ok b pre suf pad ind row cols al :
+    inert pre -> inert suf -> inert pad -> inert (b_vl b) -> inert (b_vc b) -> inert (b_vr b) -> Forall (good_cell f) row ->
+    step_ok (draw_row_f on b pre suf pad ind row cols al) (row_lines b pre suf pad ind (map (vis f) row) cols al).
+  Proof.
+    intros H1 H2 H3 H4 H5 H6 HG. destruct (row_cells_rel row HG) as [HR HL]. unfold draw_row_f, row_lines. cbv zeta.
+    rewrite <- (max_len_rel _ _ HL). set (total := fold_right Nat.max O (map (@length str) (map (split_on 10%N) row))).
+    set (cells := map (split_on 10%N) row) in *. set (cells' := map (split_on 10%N) (map (vis f) row)) in *.
+    replace (map (fun i => blanks ind ++ b_vl b ++ row_line pre suf pad (b_vc b) (b_vr b) i cells' cols al) (seq 0 total))
+      with (concat (map (fun i => [blanks ind ++ b_vl b ++ row_line pre suf pad (b_vc b) (b_vr b) i cells' cols al]) (seq 0 total))).
+    2:{ generalize (seq 0 total). intros l. induction l as [|i l IH]; [reflexivity|]. cbn [map concat app]. now rewrite IH. }
+    apply run_steps_ok. generalize (seq 0 total). intros l. induction l as [|i l IH]; cbn [map]; constructor; [|exact IH].
+    apply line_f_ok; assumption.
+  Qed.
+  (* a border line: free of '<', written as it is *)
+  Lemma inert_border_body lc c r lens : inert lc -> inert c -> inert r -> inert (border_body lc c r lens).
+  Proof.
+    intros H1 H2 H3. induction lens as [|x lens IH]; cbn [border_body]; [constructor|]. destruct lens as [|y lens].
+    - apply inert_app; [apply inert_rep, H1|exact H3].
+    - apply inert_app; [apply inert_rep, H1|]. apply inert_app; [exact H2|exact IH].
+  Qed.
+  Lemma draw_border_f_ok ind lens lc l c r : inert lc -> inert l -> inert c -> inert r ->
+    step_ok (draw_border_f on ind lens lc l c r) (border_lines ind lens lc l c r).
+  Proof.
+    intros H1 H2 H3 H4. unfold step_ok, draw_border_f, border_lines. set (full := blanks ind ++ l ++ border_body lc c r lens).
+    assert (HI : inert full) by (apply inert_app; [apply inert_blanks|]; apply inert_app; [exact H2|apply inert_border_body; assumption]).
+    destruct (rstrip_split full) as (sp & E & F). destruct (t_rstrip full) as [|ch line] eqn:ER.
+    - exists []. split; [reflexivity|constructor].
+    - assert (HL : inert (ch :: line)) by (rewrite E in HI; apply Forall_app in HI; apply HI).
+      rewrite out_write_no_lt by (apply Forall_app; split; [apply inert_no_lt, HL|repeat constructor; discriminate]).
+      exists [(ch :: line) ++ [10%N]]. cbn [concat]. rewrite app_nil_r. split; [reflexivity|]. constructor; [|constructor].
+      exists (ch :: line), sp. split; [|auto]. apply strips_text. apply Forall_app; split; [apply good_no_esc, inert_good, HL|repeat constructor; discriminate].
+  Qed.
+
+  (* the whole table *)
+  Definition inert_style (s : tstyle) : Prop :=
+    let b := t_border s in
+    inert (t_hpre s) /\ inert (t_hsuf s) /\ inert (t_cpre s) /\ inert (t_csuf s) /\ inert (t_pad s) /\
+    Forall inert [b_ht b; b_hc b; b_hb b; b_vl b; b_vc b; b_vr b; b_tl b; b_tr b; b_bl b; b_br b; b_cc b; b_cl b; b_ct b; b_cr b; b_cb b].
+  Lemma draw_table_f_ok s header ind st al : inert_style s -> rows_good f (f_rows st) ->
+    step_ok (draw_table_f on s header ind st al) (table_lines s header ind (vst f st) al).
+  Proof.
+    intros (P1 & P2 & P3 & P4 & P5 & PB) HG. unfold draw_table_f, table_lines. cbn [vst f_rows f_cols].
+    repeat (apply Forall_cons_iff in PB as [? PB]).
+    set (b := t_border s) in *. set (bl := map (fun l => l + excess s) (f_cols st)).
+    assert (Hhd : Forall (good_cell f) (hd [] (f_rows st))) by (destruct HG; [constructor|assumption]).
+    assert (Htl : rows_good f (tl (f_rows st))) by (destruct HG; [constructor|assumption]).
+    replace (hd [] (map (map (vis f)) (f_rows st))) with (map (vis f) (hd [] (f_rows st))) by (destruct (f_rows st); reflexivity).
+    replace (tl (map (map (vis f)) (f_rows st))) with (map (map (vis f)) (tl (f_rows st))) by (destruct (f_rows st); reflexivity).
+    match goal with |- step_ok _ (?a ++ ?h ++ ?rws ++ ?z) =>
+      replace (a ++ h ++ rws ++ z) with (concat ([a] ++ (match header with [] => [] | _ =>
+        [row_lines b (t_hpre s) (t_hsuf s) (t_pad s) ind (map (vis f) (hd [] (f_rows st))) (f_cols st) al;
+         border_lines ind bl (b_hc b) (b_cl b) (b_cc b) (b_cr b)] end) ++
+        map (fun row => row_lines b (t_cpre s) (t_csuf s) (t_pad s) ind row (f_cols st) al)
+            (match header with [] => map (map (vis f)) (f_rows st) | _ => map (map (vis f)) (tl (f_rows st)) end) ++ [z])) end.
+    2:{ rewrite !concat_app. cbn [concat]. rewrite !app_nil_r. f_equal. f_equal.
+        - destruct header; [reflexivity|]. cbn [concat]. now rewrite app_nil_r.
+        - f_equal. rewrite <- flat_map_concat_map. reflexivity. }
+    apply run_steps_ok. apply Forall2_app; [constructor; [apply draw_border_f_ok; assumption|constructor]|].
+    apply Forall2_app.
+    - destruct header; [constructor|]. constructor; [apply draw_row_f_ok; assumption|]. constructor; [apply draw_border_f_ok; assumption|constructor].
+    - apply Forall2_app; [|constructor; [apply draw_border_f_ok; assumption|constructor]].
+      assert (HB : rows_good f (match header with [] => f_rows st | _ => tl (f_rows st) end)) by (destruct header; assumption).
+      replace (match header with [] => map (map (vis f)) (f_rows st) | _ => map (map (vis f)) (tl (f_rows st)) end)
+        with (map (map (vis f)) (match header with [] => f_rows st | _ => tl (f_rows st) end)) by (destruct header; reflexivity).
+      induction HB as [|row body Hrow _ IH]; cbn [map]; constructor; [apply draw_row_f_ok; assumption|exact IH].
+  Qed.
+End Draw.
